@@ -218,6 +218,27 @@ def standin_ionq(tier, seed):
                 pr = cirq_ionq.SimulatorResult({value: 1.0}, n, {"k": list(targets)}, repetitions=2)
                 if pr.probabilities("k") != {want_int: 1.0}:
                     fails.append(dict(args=dict(num_qubits=n, targets=targets, value=value), failed="probabilities", clause="SimulatorResult.probabilities marginalises onto the wrong bits"))
+    # sampling a simulator result into rows: one row is ONE outcome of the whole register, so keys over perfectly correlated qubits agree in every
+    # row, whatever kind of seed is given (int, None, a RandomState)
+    for seed_ in (3, None, np.random.RandomState(5)):
+        for n_, probs, md in ((2, {0: 0.5, 3: 0.5}, {"a": [0], "b": [1]}), (3, {0: 0.25, 7: 0.75}, {"a": [2], "b": [0, 1]}), (3, {5: 0.5, 2: 0.5}, {"x": [0, 2], "y": [1]})):
+            cases += 1
+            r = cirq_ionq.SimulatorResult(probs, n_, md, repetitions=60)
+            try:
+                cr = r.to_cirq_result(seed=seed_)
+            except Exception as ex:
+                fails.append(dict(args=dict(probabilities=probs, measurement_dict=md, seed=repr(seed_)), failed="to_cirq_result-raised", clause=f"{ex!r}"))
+                continue
+            allowed = set()
+            for v in probs:
+                bits = [(v >> (n_ - 1 - t)) & 1 for t in range(n_)]
+                allowed.add(tuple(tuple(bits[t] for t in ts) for ts in md.values()))
+            for row in range(60):
+                got_row = tuple(tuple(int(b) for b in cr.measurements[k][row]) for k in md)
+                if got_row not in allowed:
+                    fails.append(dict(args=dict(probabilities=probs, measurement_dict=md, seed=repr(seed_), row=row), failed="results-rows",
+                                      clause=f"row {row} of SimulatorResult.to_cirq_result shows {dict(zip(md, got_row))}, which is not one outcome of the register (allowed: {sorted(allowed)})"))
+                    break
     # the endianness conversion itself: bit j of the result is bit (n-1-j) of the value, every value of every width <= 7
     from cirq_ionq import job as _job
 
